@@ -49,8 +49,8 @@ NAN, INF = float("nan"), float("inf")
 
 def bounds(tier):
     return {
-        "quick": {"individuals": 2, "follow_depth": "1 read or 1 further proposal+decision", "models": "all catalogue kinds except mixture", "sampler_scripts": "u in {0, .5, 1-2^-24} per decision, <=1 extreme z"},
-        "thorough": {"individuals": "2 and 3", "follow_depth": 3, "models": "all catalogue kinds except mixture", "sampler_scripts": "same + 2 deviations"},
+        "quick": {"individuals": 2, "follow_depth": "1 read or 1 further proposal+decision", "models": "all catalogue kinds incl. the mixture model", "sampler_scripts": "u in {0, .5, 1-2^-24} per decision, <=1 extreme z"},
+        "thorough": {"individuals": "2 and 3", "follow_depth": 3, "models": "all catalogue kinds incl. the mixture model", "sampler_scripts": "same + 2 deviations"},
     }[tier]
 
 
@@ -370,7 +370,7 @@ def _latents_of(name):
 
 def shards(tier, seed):
     out = []
-    names = [n for n in MODEL_SPECS if not n.startswith("mixture")]
+    names = list(MODEL_SPECS)
     for name in names:
         pop, ind = _latents_of(name)
         for v in ind + pop:
